@@ -292,7 +292,9 @@ impl LazyFormatContext {
             );
             *self.data.lock().unwrap() = Some(context);
         });
-        self.data.lock().unwrap()
+        // A panic in a caller that held the guard must not make the registry
+        // unusable for everyone else: recover the guard from a poisoned lock.
+        self.data.lock().unwrap_or_else(std::sync::PoisonError::into_inner)
     }
 }
 
